@@ -7,6 +7,7 @@ import (
 	"os"
 	"path/filepath"
 	"runtime/debug"
+	"runtime/pprof"
 	"sort"
 	"strconv"
 	"time"
@@ -25,6 +26,17 @@ func main() {
 		debugFn  = flag.String("debug", "", "pkg:Func — evaluate symbolically and dump returns and heap (development aid)")
 	)
 	flag.Parse()
+	if pf := os.Getenv("SC_PROF"); pf != "" {
+		f, err := os.Create(pf)
+		if err == nil {
+			pprof.StartCPUProfile(f)
+			go func() {
+				time.Sleep(60 * time.Second)
+				pprof.StopCPUProfile()
+				f.Close()
+			}()
+		}
+	}
 	if *debugFn != "" {
 		debugDump(*repo, *debugFn)
 		return
